@@ -127,8 +127,10 @@ func init() {
 			job(sc(sim.BoundaryEntitiesCfg("c02-boundary-64-entities", 62, 4, 128, fBNew|fBRem|fReset, oBasic).P("C02")), pick(tier, 4, 5), 0.5),
 			job(sc(sim.BoundaryEntitiesCfg("c02-boundary-64-entities-cap1", 62, 4, 1, fBNew|fBRem|fRet, oBasic).P("C02")), pick(tier, 3, 4), 0.5),
 			job(sc(sim.BoundaryEntitiesCfg("c02-boundary-128-entities", 124, 4, 128, fBNew|fBRem|fReset, oBasic).P("C02")), pick(tier, 4, 5), 0.5),
+			// handles across DumpEntities / LoadEntities (lock-step pair, also decided by C17)
+			job(scAny(&sim.PairCfg{ID: "c02-ent-k5-dumpload", Base: func() *sim.Cfg { c := sim.EntCfg("c02-ent-k5-dumpload/base", 5, 1, fBNew|fBRem, oBasic); return c.P("C02") }(), Prop: "C02", Load: true}), pick(tier, 7, 10), 1),
 		}
-	}, acceptProps("C02"))
+	}, acceptProps("C02", "C17"))
 
 	// ------------------------------------------------------------------ C03 queries
 	wxCheck("C03", 75, 900, func(tier string) []runner.Job {
@@ -248,6 +250,8 @@ func init() {
 			job(sc(sim.Rel2Cfg("c10-rel2-k3-single", 3, 0, 8, fBld|fMove|fRel|fRet|fRelX|fIll, oBasic).P("C10")), pick(tier, 4, 5), 2),
 			job(sc(sim.CoreCfg("c10-core-k3", 3, 1, nil, fMove|fVal|fBNew|fBExch|fReg|fIll, oBasic).P("C10")), pick(tier, 4, 6), 2),
 			job(sc(sim.RelCfg("c10-rel-k3-batch-reg", 0, 3, 0, 8, fBld|fBNew|fBSet|fBExch|fBRem|fRelX|fReg|fReset|fIll, oBasic).P("C10")), pick(tier, 4, 5), 2),
+			// illegal calls in a locked world, rejected registrations, out-of-range query indices (also decided by C09)
+			job(scAny(&sim.LockCfg{ID: "c10-lock-q2", Q: 2, Probes: 1}), pick(tier, 5, 7), 1),
 		}
 	}, func(f *wx.Failure, _ string) bool { return true })
 
